@@ -218,6 +218,8 @@ let check_signals (evs : ev array) : string option * string option =
           if Hashtbl.length sites > 0 then site_check i n e (is_owner n);
           if is_owner n then apply i n (ELoad (ord_of_code e.ord, stv_of_int e.res)) ~optional:false
           else fail i n (ELoad (ord_of_code e.ord, stv_of_int e.res)) "a peer loads the state of a signal it does not own"
+        | "CAS", "65535", Some n ->
+          fail i n EKind "an unconditional read-modify-write (swap / fetch_*) on the signal state is not an operation of the protocol model"
         | "CAS", _, Some n ->
           if Hashtbl.length sites > 0 then site_check i n e (is_owner n);
           let ok = e.res >= 256 in
@@ -266,6 +268,8 @@ let check_mutex (evs : ev array) : string option =
           | None -> err := Some (Printf.sprintf "step=%d thread=%d src=%s: %s" e.step e.tid e.src why) in
         if String.length e.loc > 0 && e.loc.[0] = 'L' then begin
           match e.kind with
+          | "CAS" when e.a = "65535" ->
+            err := Some (Printf.sprintf "step=%d thread=%d src=%s: an unconditional read-modify-write (swap / fetch_*) on the lock word is not an operation of the lock model" e.step e.tid e.src)
           | "CAS" ->
             o_s := ord_of_code e.ord;
             let ok = e.res >= 256 in
